@@ -319,6 +319,22 @@ def _execute(c, s, n_jobs, seen):
         return None
     # ---- (d) routing of a query batch
     Xq = s.Xq
+    tree = getattr(model.binner_, "tree_", None)
+    if tree is not None and Xq.dtype == numpy.float64 and X.dtype == numpy.float64:
+        # rows that sit on a split threshold of the fitted tree, and one
+        # float64 step on either side of it (scikit-learn's trees compare
+        # float32 values: the binner's own answer is the reference)
+        near = []
+        for node in range(tree.node_count):
+            if tree.children_left[node] != tree.children_right[node] and len(near) < 12:
+                thr = float(tree.threshold[node])
+                for v in (numpy.nextafter(thr, numpy.inf), thr, numpy.nextafter(thr, -numpy.inf)):
+                    row = X[node % X.shape[0]].copy()
+                    row[int(tree.feature[node])] = v
+                    near.append(row)
+        if near:
+            Xq = numpy.ascontiguousarray(numpy.vstack([Xq, numpy.array(near)]))
+            c.probe("query_rows_on_split_thresholds", len(near))
     ok, aq = U.sut(c, "transform_bins(q)", model.transform_bins, Xq)
     if not ok:
         _viol(c, s, "raised", ("transform_bins", type(aq).__name__, U.where_raised(aq)), "transform_bins raised %s" % U.short_exc(aq), seen)
